@@ -137,6 +137,26 @@ def hyp_part(n, seed):
             p.failure(f"C19 generated line split wrong ({cls})", {"line": line, "got": list(got), "expected": [name, body]})
         p.sample({"line": line}, cap=3)
 
+    @hypothesis.seed(seed + 2)
+    @settings(max_examples=n // 2, database=None, deadline=None, phases=[Phase.generate],
+              suppress_health_check=list(hypothesis.HealthCheck))
+    @given(name_st, body_st, st.integers(1, 12), st.sampled_from(["cut", "cut", "junk"]),
+           st.sampled_from([";", " x", "}", " // c", " insn(", ",", ") ;", "\\"]), st.sampled_from(["", "\n"]))
+    def malformed_prop(name, body, k, how, junk, tail):
+        """a line that does not end in the closing parenthesis of insn( is malformed: cut anywhere, or text after it"""
+        good = f"insn({name}, {body})"
+        bad = good[:max(len("insn("), len(good) - k)] if how == "cut" else good + junk
+        if bad.rstrip().endswith(")"):
+            return      # still ends like a definition: not in the class this rule is about
+        p.ev()
+        p.count("malformed:" + how)
+        try:
+            got = PH.split_resolved_shortcode(bad + tail)
+        except Exception:
+            p.nontriv(("malformed", bad))
+            return
+        p.failure(f"C19 malformed line accepted ({how})", {"line": bad + tail, "got": list(got)})
+
     stmt = st.sampled_from(["RdV = RsV;", "P0 = 1;", "{ RxV += 1; }", "if (RsV) { JUMP(riV); }", ";", "{ }",
                             "if (a) {P0 = 0xff;} else {P0 = 0x00;}", "f(a, b);", " "])
     seq = st.lists(stmt, min_size=0, max_size=3).map(" ".join)
@@ -171,6 +191,7 @@ def hyp_part(n, seed):
         check_compound(PH, body, exp, p, f"C19 generated compound ({from_pre})", {"body": body})
 
     line_prop()
+    malformed_prop()
     comp_prop()
     return p.d
 
@@ -189,14 +210,19 @@ def load_part(seed, rounds):
         os.makedirs(pp)
         os.chdir(d)
         bodies = ["{ RdV = RsV; }", "{ if (RsV) { RdV = f(a, b); } }", "{ RdV = (RsV); }",
-                  "{" + M + "{ P0 = 1; }" + M + " if (P0_NEW) { JUMP(riV); }}", "{ RxV = g(1, (2)); }"]
+                  "{" + M + "{ P0 = 1; }" + M + " if (P0_NEW) { JUMP(riV); }}", "{ RxV = g(1, (2)); }",
+                  # compounds with text in front of the first marker / padded markers: they must be split as well
+                  "{ RdV = 1; " + M + "{ P0 = 1; }" + M + " JUMP(riV); }", "{ " + M + "{ P1 = f(a, (b)); }" + M + " RdV = 2; }",
+                  "{ int x = RsV; " + M + "{ if (x) { P0 = 0xff; } else { P0 = 0; } }" + M + "}"]
+        malformed = ["this line is not an insn definition", "insn(A2_cut, { RdV = fADD(RsV, RtV);}", "insn(A2_junk, { RdV = 1; }) x",
+                     "insn(A2_semi, { RdV = g(1); });", "insn(NoBody)", "insn(A2_open, { RdV = (RsV; }"]
         for r in range(rounds):
             names = [f"T{r % 2}_{i}" for i in range(6)] + ["SHARED_A", "SHARED_B"]
             content = {n: rng.choice(bodies) for n in names}
             bad = rng.random() < 0.4
             lines = ["#line 1 \"x\""] + [f"insn({n}, {b})" for n, b in content.items()]
             if bad:
-                lines.insert(rng.randrange(1, len(lines)), "this line is not an insn definition")
+                lines.insert(rng.randrange(1, len(lines)), rng.choice(malformed))
             with open(os.path.join(pp, "shortcode_resolved.h"), "w") as f:
                 f.write("\n".join(lines) + "\n")
             ph = PH(None)
@@ -215,11 +241,18 @@ def load_part(seed, rounds):
                 p.failure("C19 load silently skips a malformed line", {"lines": lines})
                 continue
             p.nontriv(("load", r, tuple(sorted(content.items()))))
+            nb = lambda ts: [t for t in ts if t not in "{}"]
             for n, b in content.items():
-                exp = boot.split_compound(b)
                 got = ph.behaviors.get(n)
-                if got is None or [toks(x) for x in got] != [toks(x) for x in exp]:
-                    p.failure("C19 load returns stale or wrong behaviour", {"insn": n, "expected": exp, "got": got, "round": r})
+                if M not in b:
+                    ok = got is not None and [toks(x) for x in got] == [toks(b)]
+                else:
+                    # a compound: two brace-balanced blocks holding, in order, the statements of the body without markers
+                    ok = got is not None and len(got) == 2 and all(inner(x) is not None and balanced(inner(x)) for x in got) and \
+                        all(M not in x for x in got) and \
+                        nb(toks(inner(got[0])) + toks(inner(got[1]))) == nb(toks(inner(b.replace(M, ""))))
+                if not ok:
+                    p.failure("C19 load returns stale or wrong behaviour", {"insn": n, "body": b, "got": got, "round": r})
     finally:
         os.chdir(old)
         shutil.rmtree(d, ignore_errors=True)
